@@ -71,6 +71,8 @@ impl WireWorld {
     }
     /// one word on the wire with the DC level in force
     pub fn word(&mut self, w: u16, dc_high: bool) {
+        // only `word_bits` data lines exist on this bus
+        let w = if self.word_bits < 16 { w & ((1u16 << self.word_bits) - 1) } else { w };
         self.world.bus_op();
         if !dc_high {
             self.flush();
